@@ -252,11 +252,8 @@ func (m *monitor) checkSameHandleAgainstStorage(c *caseCtx, phase string, dSame,
 					nowhere++
 				}
 			}
-			if nowhere == 0 && isAggregate(g, n) {
-				continue // a list: every element is an old or a stored value (files arrive one by one)
-			}
-			if nowhere == 0 && len(eS.Vals) > 0 {
-				continue
+			if nowhere == 0 {
+				continue // a list whose every element is an old or a stored value (files arrive one by one); what is MISSING is judged by check()
 			}
 			stored := "storage-holds-" + entryClass(eF)
 			if eF.OK() && same(eF, eP) {
